@@ -22,6 +22,13 @@ its import specs plus its top-level declarations with their *source text*. Mirro
 * `plugin/resolvergen/resolver.gotpl`        → `NewFile` (methods, then object accessors, then struct types,
   then the trailing WARNING block `trailer`, whose shape is regenerated: `Gen.RewriteOffsets.trailerMode`)
 * `codegen/field.go` `ShortResolverSignature` → `NewMethod.namedV/namedE` (named results of the previous decl)
+* the Go names derived from a GraphQL type name: WHICH helper resolver.go applies to compute the receiver it
+  looks a previous method up under / the struct it marks copied / the accessor it looks up, and which helper
+  resolver.gotpl applies to emit the receiver / accessor / struct type, are regenerated facts
+  (`Gen.RewriteOffsets.lookupRecvSingle` … `emitStruct`) → `lookupName`, `markName`, `accessorLookup`,
+  `structName`, `accessorName`, `structTypeName`. `templates.LcFirst` / `UcFirst` are computed (`lcFirst`,
+  `ucFirst`); the values of `templates.ToGo`, `templates.ToGoPrivate` and `cases.Title(…).String` are inputs
+  (`Cfg.names`, an arbitrary function: the harness calls the real helpers)
 * `codegen/templates/import.go` `Reserve` / `Import.String`, `internal/imports/prune.go` → `reserve`, `printedLocal`, `prune`
 * re-parsing the written file (go/parser; modelled-not-verified, tied by the correspondence run) → `reparse`,
   so that repeated regeneration is `iterate`.
@@ -124,13 +131,6 @@ def Obj.resolverFields (o : Obj) : List Field := o.fields.filter (·.isResolver)
 inductive Layout | single | follow
   deriving DecidableEq, Repr, Inhabited
 
-structure Cfg where
-  layout : Layout
-  rtype : String := "Resolver"          -- `resolver.type`
-  singleName : String := "resolver.go"  -- `resolver.filename` (single-file layout)
-  omitTemplateComment : Bool := false
-  deriving Repr, Inhabited
-
 def mapFirst (f : Char → Char) (s : String) : String :=
   match s.toList with
   | [] => ""
@@ -139,7 +139,52 @@ def mapFirst (f : Char → Char) (s : String) : String :=
 def lcFirst (s : String) : String := mapFirst Char.toLower s
 def ucFirst (s : String) : String := mapFirst Char.toUpper s
 
-def structName (cfg : Cfg) (o : Obj) : String := lcFirst o.name ++ ucFirst cfg.rtype
+/-- the values, for one GraphQL name, of the name helpers the model does not compute itself -/
+structure Mangled where
+  goPrivate : String   -- `templates.ToGoPrivate`
+  goPublic : String    -- `templates.ToGo`
+  title : String       -- `cases.Title(language.English, cases.NoLower).String`
+  deriving DecidableEq, Repr, Inhabited
+
+structure Cfg where
+  layout : Layout
+  rtype : String := "Resolver"          -- `resolver.type`
+  singleName : String := "resolver.go"  -- `resolver.filename` (single-file layout)
+  omitTemplateComment : Bool := false
+  /-- `ToGoPrivate` / `ToGo` / `cases.Title` as functions of the GraphQL name: an input (any function);
+  the default is what they return for names like `Query`, `Todo` -/
+  names : String → Mangled := fun s => ⟨lcFirst s, ucFirst s, ucFirst s⟩
+  deriving Inhabited
+
+/-- apply one of the name helpers to a GraphQL name -/
+def mangle (cfg : Cfg) : NameHelper → String → String
+  | .lcFirst, s => lcFirst s
+  | .ucFirst, s => ucFirst s
+  | .toGo, s => (cfg.names s).goPublic
+  | .toGoPrivate, s => (cfg.names s).goPrivate
+  | .title, s => (cfg.names s).title
+
+/-- the choice resolver.go makes per layout (`generateSingleFile` / `generatePerSchema`) -/
+def byLayout {α : Type} (cfg : Cfg) (single follow : α) : α :=
+  match cfg.layout with | .single => single | .follow => follow
+
+/-- the receiver type the template EMITS for the resolver methods of `o`:
+`func (r *{{lcFirst $resolver.Object.Name}}{{ucFirst $.ResolverType}})` -/
+def structName (cfg : Cfg) (o : Obj) : String := mangle cfg emitRecv o.name ++ ucFirst cfg.rtype
+/-- the receiver type under which resolver.go LOOKS UP the previous method of `o`
+(`structName := templates.LcFirst(o.Name) + templates.UcFirst(data.Config.Resolver.Type)`) -/
+def lookupName (cfg : Cfg) (o : Obj) : String :=
+  mangle cfg (byLayout cfg lookupRecvSingle lookupRecvFollow) o.name ++ ucFirst cfg.rtype
+/-- the struct type `MarkStructCopied` is called with -/
+def markName (cfg : Cfg) (o : Obj) : String :=
+  mangle cfg (byLayout cfg markStructSingle markStructFollow) o.name ++ ucFirst cfg.rtype
+/-- the accessor `rewriter.GetMethodBody(Resolver.Type, caser.String(o.Name))` looks up -/
+def accessorLookup (cfg : Cfg) (o : Obj) : String :=
+  mangle cfg (byLayout cfg lookupAccessorSingle lookupAccessorFollow) o.name
+/-- the accessor / struct type / accessor result the template emits for the object called `o` -/
+def accessorName (cfg : Cfg) (o : String) : String := mangle cfg emitAccessor o
+def structTypeName (cfg : Cfg) (o : String) : String := mangle cfg emitStruct o ++ ucFirst cfg.rtype
+def accessorRetName (cfg : Cfg) (o : String) : String := mangle cfg emitAccessorRet o ++ ucFirst cfg.rtype
 
 /-- a `GetPrevDecl` call made by resolvergen -/
 structure Req where
@@ -148,13 +193,16 @@ structure Req where
   deriving DecidableEq, Repr
 
 /-- resolver-method lookups of one object -/
-def fieldReqs (cfg : Cfg) (o : Obj) : List Req := o.resolverFields.map fun f => ⟨structName cfg o, f.goName⟩
+def fieldReqs (cfg : Cfg) (o : Obj) : List Req := o.resolverFields.map fun f => ⟨lookupName cfg o, f.goName⟩
 /-- all lookups of one object: the accessor `func (r *Resolver) <Title o.Name>()` first -/
 def objReqs (cfg : Cfg) (o : Obj) : List Req :=
-  (if o.hasResolvers then [⟨cfg.rtype, ucFirst o.name⟩] else []) ++ fieldReqs cfg o
+  (if o.hasResolvers then [⟨cfg.rtype, accessorLookup cfg o⟩] else []) ++ fieldReqs cfg o
 def reqs (cfg : Cfg) (sch : Schema) : List Req := sch.flatMap (objReqs cfg)
 def resolverReqs (cfg : Cfg) (sch : Schema) : List Req := sch.flatMap (fieldReqs cfg)
-def structNames (cfg : Cfg) (sch : Schema) : List String := (sch.filter (·.hasResolvers)).map (structName cfg)
+/-- the resolver methods as the template writes them (receiver `structName`): what a user's file holds -/
+def emittedReqs (cfg : Cfg) (sch : Schema) : List Req :=
+  sch.flatMap fun o => o.resolverFields.map fun f => ⟨structName cfg o, f.goName⟩
+def structNames (cfg : Cfg) (sch : Schema) : List String := (sch.filter (·.hasResolvers)).map (markName cfg)
 
 /-- `Rewriter.copied` after resolvergen's loop -/
 def copied (cfg : Cfg) (p : Pkg) (sch : Schema) : List Key :=
@@ -284,9 +332,12 @@ def mkOf (cfg : Cfg) (o : Obj) (f : Field) (c : Option Content) : NewMethod :=
     impl := if implStrOf c != [] then implStrOf c else defaultFor cfg f
     hasPrev := keepOf cfg c }
 
-/-- … with `GetPrevDecl` -/
-def mkMethod (cfg : Cfg) (p : Pkg) (o : Obj) (f : Field) : NewMethod :=
-  mkOf cfg o f ((firstMatch p (structName cfg o) f.goName).map fun kd => content kd.2)
+/-- … with `GetPrevDecl` under the receiver name `lk` -/
+def mkMethodAt (cfg : Cfg) (p : Pkg) (o : Obj) (f : Field) (lk : String) : NewMethod :=
+  mkOf cfg o f ((firstMatch p lk f.goName).map fun kd => content kd.2)
+
+/-- … under the name resolver.go computes (`lookupName`); the method is written with receiver `structName` -/
+def mkMethod (cfg : Cfg) (p : Pkg) (o : Obj) (f : Field) : NewMethod := mkMethodAt cfg p o f (lookupName cfg o)
 
 inductive Item
   | obj (name : String)
@@ -408,12 +459,12 @@ def NewMethod.toDecl (m : NewMethod) : Decl :=
     canon := m.impl }
 
 def accessorDecl (cfg : Cfg) (o : String) : Decl :=
-  { isFunc := true, tok := "", recv := cfg.rtype, name := ucFirst o, doc := [], specDoc := [], namedV := "", namedE := "",
-    hdr := [], inner := (" return &" ++ lcFirst o ++ ucFirst cfg.rtype ++ "{r} ").toList, hasBody := true }
+  { isFunc := true, tok := "", recv := cfg.rtype, name := accessorName cfg o, doc := [], specDoc := [], namedV := "", namedE := "",
+    hdr := [], inner := (" return &" ++ accessorRetName cfg o ++ "{r} ").toList, hasBody := true }
 
 def structDecl (cfg : Cfg) (o : String) : Decl :=
-  { isFunc := false, tok := "TYPE", recv := "", name := lcFirst o ++ ucFirst cfg.rtype, doc := [], specDoc := [], namedV := "", namedE := "",
-    hdr := ("type " ++ lcFirst o ++ ucFirst cfg.rtype ++ " struct{ *" ++ cfg.rtype ++ " }").toList, inner := [], hasBody := false }
+  { isFunc := false, tok := "TYPE", recv := "", name := structTypeName cfg o, doc := [], specDoc := [], namedV := "", namedE := "",
+    hdr := ("type " ++ structTypeName cfg o ++ " struct{ *" ++ cfg.rtype ++ " }").toList, inner := [], hasBody := false }
 
 def rootDecl (cfg : Cfg) : Decl :=
   { isFunc := false, tok := "TYPE", recv := "", name := cfg.rtype, doc := [], specDoc := [], namedV := "", namedE := "",
